@@ -21,6 +21,11 @@ pub fn ty_str<'tcx>(ty: Ty<'tcx>) -> String {
     with_no_trimmed_paths!(ty.to_string())
 }
 
+/// Crate-qualified definition path that is identical no matter which crate prints it.
+pub fn dp_str<'tcx>(tcx: TyCtxt<'tcx>, did: DefId) -> String {
+    format!("{}{}", tcx.crate_name(did.krate), tcx.def_path(did).to_string_no_crate_verbose())
+}
+
 pub fn path_str<'tcx>(tcx: TyCtxt<'tcx>, did: DefId) -> String {
     with_no_trimmed_paths!(tcx.def_path_str(did))
 }
@@ -150,6 +155,7 @@ impl<'tcx> Cx<'tcx> {
         let did = ldid.to_def_id();
         let mut o = J::obj();
         o.set("path", J::s(path_str(tcx, did)));
+        o.set("dp", J::s(dp_str(tcx, did)));
         o.set(
             "kind",
             J::s(match kind {
@@ -400,6 +406,7 @@ impl<'tcx> Cx<'tcx> {
             ty::FnDef(did, args) => {
                 let did = *did;
                 c.set("path", J::s(path_str(tcx, did)));
+                c.set("dp", J::s(dp_str(tcx, did)));
                 c.set("full", J::s(with_no_trimmed_paths!(tcx.def_path_str_with_args(did, args))));
                 c.set("crate", J::s(tcx.crate_name(did.krate).to_string()));
                 let mut ga = Vec::new();
@@ -434,6 +441,7 @@ impl<'tcx> Cx<'tcx> {
                     let kind = format!("{:?}", inst.def);
                     let kind = kind.split('(').next().unwrap_or("").to_string();
                     c.set("resolved", J::s(path_str(tcx, rd)));
+                    c.set("resolved_dp", J::s(dp_str(tcx, rd)));
                     c.set("resolved_kind", J::s(kind));
                     c.set("resolved_crate", J::s(tcx.crate_name(rd.krate).to_string()));
                 }
